@@ -1033,6 +1033,9 @@ class Footnote(BlockToken):
                 escaped = True
             elif c == closing and not escaped:
                 return offset, i + 1, string[offset + 1:i]
+            elif c == '(' and closing == ')' and not escaped:
+                # a title in parentheses holds parentheses only if they are escaped
+                return None
             elif escaped:
                 escaped = False
         return None
